@@ -287,13 +287,19 @@ class ApiMergeStoreHandler(NbdimeHandler, APIHandler):
 
         body = json.loads(escape.to_unicode(self.request.body))
         merged = body['merged']
+        if not isinstance(merged, dict) or 'cells' not in merged:
+            raise web.HTTPError(400, 'The value of "merged" is not a notebook.')
         merged_nb = nbformat.from_dict(merged)
+        # Serialize before the output file is opened (and truncated)
+        text = nbformat.writes(merged_nb)
+        if not text.endswith('\n'):
+            text += '\n'
 
         # Somehow store unsolved conflicts?
         # conflicts = body['conflicts']
 
         with io.open(path, 'w', encoding='utf8') as f:
-            nbformat.write(merged_nb, f)
+            f.write(text)
         self.finish()
 
 
